@@ -443,9 +443,106 @@ pub fn main_c11(args: &Args) -> std::io::Result<()> {
             cx.st.inc("general_position_curves");
         }
     }
+    // ---- arcs and line segments: direct evaluation (trigonometry is outside the rational model)
+    let na = if args.thorough() { 6000 } else { 800 };
+    for it in 0..na {
+        let r = &mut rng;
+        let pi = std::f64::consts::PI;
+        let center = if it % 3 == 0 { point(0.0, 0.0) } else { point(r.range(-10, 10) as f64, r.range(-10, 10) as f64) };
+        let radii = lyon_geom::vector(1.0 + r.below(8) as f64, 1.0 + r.below(8) as f64);
+        let start = match it % 4 {
+            0 => 0.0,
+            _ => (r.unit_f64() - 0.5) * 4.0 * pi,
+        };
+        let mut sweep = match it % 5 {
+            0 => 2.0 * pi,
+            1 => -2.0 * pi,
+            _ => (r.unit_f64() - 0.5) * 4.0 * pi,
+        };
+        if sweep.abs() < 1e-3 {
+            sweep = 1.0;
+        }
+        let rot = match it % 3 {
+            0 => 0.0,
+            _ => (r.unit_f64() - 0.5) * 2.0 * pi,
+        };
+        let arc = lyon_geom::Arc { center, radii, start_angle: lyon_geom::Angle::radians(start), sweep_angle: lyon_geom::Angle::radians(sweep), x_rotation: lyon_geom::Angle::radians(rot) };
+        check_arc_boxes(&mut cx, &arc);
+        let g = |r: &mut Rng| point(r.range(-10, 10) as f64, r.range(-10, 10) as f64);
+        let l = LineSegment { from: g(r), to: g(r) };
+        let b = l.bounding_box();
+        cx.st.inc("line_segments");
+        if b.min.x != l.from.x.min(l.to.x) || b.max.x != l.from.x.max(l.to.x) || b.min.y != l.from.y.min(l.to.y) || b.max.y != l.from.y.max(l.to.y) {
+            cx.st.fail(jobj(&[("what", jstr("bounding box of a line segment is not the box of its end points")), ("input", jstr(&format!("{:?} -> {:?}", l, b)))]));
+        }
+    }
     drop(cx);
     w.finish()?;
     st.write(&args.out.join("c11_stats.json"))
+}
+
+fn check_arc_boxes(cx: &mut Ctx, arc: &lyon_geom::Arc<f64>) {
+    cx.st.inc("arcs");
+    cx.st.inc(if arc.sweep_angle.radians < 0.0 { "arcs_negative_sweep" } else { "arcs_positive_sweep" });
+    let label = format!("{:?}", arc);
+    let r = catch(|| {
+        let mut bad: Vec<(String, Option<&'static str>)> = Vec::new();
+        let b = arc.bounding_box();
+        let f = arc.fast_bounding_box();
+        let scale = 1.0 + arc.center.x.abs() + arc.center.y.abs() + arc.radii.x + arc.radii.y;
+        let s = 1e-7 * scale;
+        let n = 2048;
+        let (mut lx, mut hx, mut ly, mut hy) = (f64::MAX, f64::MIN, f64::MAX, f64::MIN);
+        let mut out = false;
+        for i in 0..=n {
+            let p = arc.sample(i as f64 / n as f64);
+            lx = lx.min(p.x);
+            hx = hx.max(p.x);
+            ly = ly.min(p.y);
+            hy = hy.max(p.y);
+            if !within(b.min.x, p.x, b.max.x, s) || !within(b.min.y, p.y, b.max.y, s) {
+                out = true;
+            }
+        }
+        if out {
+            bad.push(("the exact bounding box of an arc does not contain the arc".into(), None));
+        }
+        // sampled extremes are within (max radius * (sweep / n)^2 / 2) of the true ones
+        let e = arc.radii.x.max(arc.radii.y) * (arc.sweep_angle.radians / n as f64).powi(2) + s;
+        if b.min.x < lx - e || b.max.x > hx + e || b.min.y < ly - e || b.max.y > hy + e {
+            bad.push(("the exact bounding box of an arc is not touched on all four sides".into(), None));
+        }
+        if !(f.min.x <= lx + s && f.min.y <= ly + s && f.max.x >= hx - s && f.max.y >= hy - s) {
+            bad.push(("the fast bounding box of an arc does not contain the arc".into(), None));
+        }
+        let mut ts: Vec<(f64, bool)> = Vec::new();
+        arc.for_each_local_x_extremum_t(&mut |t| ts.push((t, true)));
+        arc.for_each_local_y_extremum_t(&mut |t| ts.push((t, false)));
+        for (t, is_x) in ts {
+            if !(0.0..=1.0).contains(&t) {
+                bad.push((format!("an extremum parameter of an arc is outside [0,1]: {}", t), None));
+                continue;
+            }
+            // the coordinate is stationary there
+            let h = 1e-4;
+            let c = |u: f64| if is_x { arc.sample(u).x } else { arc.sample(u).y };
+            let d = (c((t + h).min(1.0)) - c((t - h).max(0.0))).abs();
+            let speed = arc.radii.x.max(arc.radii.y) * arc.sweep_angle.radians.abs();
+            if t > h && t < 1.0 - h && d > 1e-3 * speed * h * 2.0 + 1e-12 {
+                bad.push((format!("the coordinate of an arc is not extremal at the reported parameter: {} ({})", t, if is_x { "x" } else { "y" }), None));
+            }
+        }
+        bad
+    });
+    match r {
+        None => cx.st.fail(jobj(&[("what", jstr("arc bounding box panicked")), ("input", jstr(&label))])),
+        Some(bad) => {
+            for (what, _) in bad {
+                let w0 = what.split(':').next().unwrap_or("").to_string();
+                cx.st.fail(jobj(&[("what", jstr(&w0)), ("input", jstr(&format!("{} :: {}", what, label)))]));
+            }
+        }
+    }
 }
 
 fn check_quad_boxes(cx: &mut Ctx, q: &QuadraticBezierSegment<f64>, slack: f64) {
